@@ -227,6 +227,17 @@ func VerifC17LaunchBinding() {
 			e.k.SetConsumerChainId(e.ctx, cid, "chain-b")
 		}
 		vh.Assert(e.k.SetConsumerInitializationParameters(e.ctx, cid, vInitParams(vC17Conns[conn])) == nil, "C17.setup")
+		// consumers that hold a client are launched or stopped (a stopped consumer keeps its
+		// client until it is removed)
+		for i, c := range vC17Consumers {
+			if i != target && pre.client[i] >= 0 {
+				if vh.ConcretizeInt(vh.Int(vh.Sprintf("stopped_%d", i)), 0, 1) == 1 {
+					e.k.SetConsumerPhase(e.ctx, c, types.CONSUMER_PHASE_STOPPED)
+				} else {
+					e.k.SetConsumerPhase(e.ctx, c, types.CONSUMER_PHASE_LAUNCHED)
+				}
+			}
+		}
 		_, err := e.k.MakeConsumerGenesis(e.ctx, cid, nil)
 		vh.Reach("after-genesis-on-connection")
 		post, inv := vReadBindings(e)
